@@ -166,7 +166,7 @@ func init() {
 		Bound: func(tier string, sc explore.Scenario) int {
 			var p sideParams
 			_ = json.Unmarshal(sc.Spec.Params, &p)
-			if tier == "thorough" && (p.Engines[0] == "plain" || p.Engines[0] == "quiescence") && p.Depth == 1 {
+			if tier == "thorough" && len(p.Engines) > 0 && (p.Engines[0] == "plain" || p.Engines[0] == "quiescence") && p.Depth == 1 {
 				return 2
 			}
 			return 1
